@@ -292,6 +292,8 @@ def run_session(case, data_dir=None, data_source=None, keep=False):
         if signals is not None:
             rec['warmup'] = signals.warmup
             rec['signal_assets'] = {n: sorted(s.assets) for n, s in signals.signals.items()}
+            rec['signal_buffers'] = {n: sorted((k, [fnum(x) for x in dq]) for k, dq in s.buffers.prices.items())
+                                     for n, s in signals.signals.items()}
         rec['parsed'] = {('EQ:' + s): k2.parsed_rows(data_dir, s) for s in case['market']} if data_dir else None
         if keep:
             rec['_bt'] = bt
